@@ -23,11 +23,12 @@ import math
 from sexp import Sym
 
 from props._chunks_util import comps, rand_comp, rand_comp_zeros, valid_dim, setup_dask, blocks_match_chunks
+from props import _c24x
 
 PROP = "C24"
 READY = True
 DRIVER = "dm_chunks"
-LEAN_MODULES = ["DaskModel.Props.C24"]
+LEAN_MODULES = ["DaskModel.Props.C24", "DaskModel.Props.C24xPadEdge"]
 CASE_TIMEOUT_S = 30
 LEVEL_TEXT = ("Lean 4 theorems, all for every chunking (irregular, size-1, zero-length chunks) over exact values and without size "
               "bounds. (1) reshape: the real reshape_rechunk is modelled in full (two-pointer walk, merge / split branches, the "
@@ -44,8 +45,14 @@ LEVEL_TEXT = ("Lean 4 theorems, all for every chunking (irregular, size-1, zero-
               "transpose_den (also .T / swapaxes / moveaxis; n-d with any permutation: transpose_nd_den), flip_den, rot90_den (k = 1, 2, 3), tril_den, triu_den, stack_den, "
               "broadcast_to_den, squeeze_expand_den (+ expand_dims_plan: reshape_rechunk answers expand_dims without a rechunk), "
               "concat2d_den, block_den ([[a, b], [c, d]]), tile2d_den, pad_const_den (pad chunks add up to the width). "
+              "(5) pad mode='edge' (Props/C24xPadEdge): pad_edge_den - for every chunking (zero-length blocks included) and every "
+              "pair of widths the blocks built by one pass of pad_edge's loop assemble to np.pad(x, (l, r), 'edge') = "
+              "x[clip(i - l, 0, n - 1)] (np_pad_edge_index), and dask raises exactly when NumPy does (pad_edge_raises_iff: empty "
+              "axis, non-zero width); pad_edge_chunks (chunks = (l,) + chunks + (r,) without zero widths); pad_edge2_den / "
+              "np_pad_edge2_index: the loop over two axes (any row and column chunking) equals NumPy's axis-by-axis pad, entry "
+              "(i, j) = x[clip(i - l0), clip(j - l1)]. "
               "Validated against NumPy only (not proved): the n-d product structure of the 1-d / 2-d plans (n-d flip / rot90 / "
-              "tril / stack / broadcast_to / concatenate, deeper block nestings), edge / linear_ramp / statistics pads, "
+              "tril / stack / broadcast_to / concatenate, deeper block nestings), edge pads of three and more axes, linear_ramp / statistics pads, "
               "repeat's slab cutting, shuffle's _rechunk_other_dimensions, positivity of _smooth_chunks' output chunks (checked "
               "on every real output), x.rechunk(result_inchunks) itself (C23).")
 LEVEL_NOTE = ("Trusted: Lean kernel + standard axioms; the harness; NumPy kernels on one block; model = code is a checked tie "
@@ -62,6 +69,7 @@ ASSUMPTIONS = [
     "reshape is applied to chunk tuples of the input shape (non-empty, positive): reshape() drops zero-length chunks and handles empty / single-block arrays before reshape_rechunk",
     "x.rechunk(result_inchunks) delivers the blocks of the same array under the new chunking (C23: rechunk_values_unchanged)",
     "_shuffle: int(sum(chunks)/len(chunks)*tolerance) is evaluated in floating point by the code; the model takes the value as a parameter",
+    "pad_edge (mode='edge'): result[:1] / result[-1:] along the axis rechunked to one chunk is the first / last slab (slicing: C20, rechunk: C23), broadcast_to of that slab to ONE chunk of w repeats it (broadcast_to_den), concatenate drops inputs of size 0 and chains the block lists (concat_den) - the composition is diffed block by block against padEdgeBlocks",
 ]
 TRUSTED = ["arange block values are the global positions (C34 arange_den) - used by tril_den / triu_den's mask"]
 TABLES = ["ChunkTolerance"]
@@ -897,7 +905,7 @@ def case_grid(ctx, inp):
         raise ValueError(op)
 
 
-CASES = {"grid": case_grid, "shuf": case_shuf, "fn": case_fn, "concat": case_concat, "pad1d": case_pad1d, "roll1d": case_roll1d, "op": case_op}
+CASES = {"edge": _c24x.case_edge, "grid": case_grid, "shuf": case_shuf, "fn": case_fn, "concat": case_concat, "pad1d": case_pad1d, "roll1d": case_roll1d, "op": case_op}
 
 
 # ---------------------------------------------------------------------------
@@ -1380,3 +1388,5 @@ def generate(ctx):
                 yield "op", {"op": "reshape", "chunks": ch, "target": [shape[0], -1]}
                 yield "op", {"op": "transpose", "chunks": ch, "axes": list(range(len(shape)))[::-1]}
                 yield "op", {"op": "pad", "chunks": ch, "pad_width": [[1, 2]] * len(shape), "mode": "symmetric"}
+    # --- extension: pad(mode="edge") vs Model/PadEdge.lean (appended last: keeps the random streams of the sections above) ---
+    yield from _c24x.gen_edge(ctx)
